@@ -106,12 +106,12 @@ def use_as_input_of_derivations(api, c, rng):
     return ["zzp", "zzsyn", "zzsyn2", r0.uri_prefix + "zz_1", r0.uri_prefix + "yy_1", r0.prefix, r0.uri_prefix + "1"]
 
 
-def scale_leg(ctx, rng, d, modes=False, every=40, g=0):
+def scale_leg(ctx, rng, d, modes=False, every=41, g=0):
     """One case in `every`: the same query families on a converter far above any plausible fast-path threshold, batch
     size or slice limit (150 / 400 / 1100 records, deep URI-prefix tree, synonyms), built by a random route.  The
     always-on query monitors compare every answer with the linear-scan model."""
     if ctx.tier == "thorough":
-        every *= 4  # larger maps, fewer of them
+        every = every * 4 + 1  # larger maps, fewer of them (moduli coprime to the shard counts)
     if g % every != every - 1:
         return
     api = ctx.api
